@@ -404,21 +404,27 @@ Proof. intros. unfold enc_seq. pose proof (tlv_enc_length 16 true b ltac:(lia)).
 Lemma tlv_length_N : forall t comp b, t < 31 -> N.of_nat (length (tlv_enc t comp b)) <= N.of_nat (length b) + 6.
 Proof. intros. pose proof (tlv_enc_length t comp b H). lia. Qed.
 
-Lemma oid_field_enc : forall arcs rest, In arcs [oid_rsa_arcs; oid_dsa_arcs; oid_ed25519_arcs] ->
+Definition known_oids : list (list N) :=
+  [oid_rsa_arcs; oid_dsa_arcs; oid_ed25519_arcs; oid_ec_arcs; curve_oid P224; curve_oid P256; curve_oid P384; curve_oid P521].
+Ltac known := unfold known_oids; cbn [In]; auto 12.
+
+Lemma oid_field_enc : forall arcs rest, In arcs known_oids ->
   oid_field (enc_oid arcs ++ rest) = Ok (arcs, rest).
 Proof.
-  intros arcs rest H. cbn [In] in H.
-  destruct H as [<-|[<-|[<-|[]]]]; unfold oid_field, enc_oid, oid_rsa_arcs, oid_dsa_arcs, oid_ed25519_arcs;
+  intros arcs rest H. unfold known_oids in H. cbn [In] in H.
+  decompose [or] H; try contradiction; subst arcs;
+    unfold oid_field, enc_oid, oid_rsa_arcs, oid_dsa_arcs, oid_ed25519_arcs, oid_ec_arcs, curve_oid;
     (rewrite field_enc by (try lia; vm_compute; reflexivity)); cbn [req bind fst snd];
     match goal with |- context [dec_oid_legacy ?c] =>
       let v := eval vm_compute in (dec_oid_legacy c) in change (dec_oid_legacy c) with v end;
     reflexivity.
 Qed.
 
-Lemma enc_oid_length : forall arcs, In arcs [oid_rsa_arcs; oid_dsa_arcs; oid_ed25519_arcs] ->
+Lemma enc_oid_length : forall arcs, In arcs known_oids ->
   N.of_nat (length (enc_oid arcs)) <= 20.
 Proof.
-  intros arcs H. cbn [In] in H. destruct H as [<-|[<-|[<-|[]]]]; vm_compute; discriminate.
+  intros arcs H. unfold known_oids in H. cbn [In] in H.
+  decompose [or] H; try contradiction; subst arcs; vm_compute; discriminate.
 Qed.
 
 Lemma raw_optional_enc : forall t comp c rest, t < 2147483648 -> len_ok (length c) = true ->
@@ -439,7 +445,7 @@ Lemma enc_null_tlv : enc_null = tlv_enc 5 false [].
 Proof. reflexivity. Qed.
 
 Lemma algorithm_identifier_enc : forall arcs t comp c rest,
-  In arcs [oid_rsa_arcs; oid_dsa_arcs; oid_ed25519_arcs] -> t < 31 -> N.of_nat (length c) <= 1000000000 ->
+  In arcs known_oids -> t < 31 -> N.of_nat (length c) <= 1000000000 ->
   algorithm_identifier (enc_seq (enc_oid arcs ++ tlv_enc t comp c) ++ rest) = Ok (arcs, tlv_enc t comp c, rest).
 Proof.
   intros arcs t comp c rest Ha Ht Hc. unfold algorithm_identifier.
@@ -451,7 +457,7 @@ Proof.
 Qed.
 
 Lemma algorithm_identifier_enc_noparams : forall arcs rest,
-  In arcs [oid_rsa_arcs; oid_dsa_arcs; oid_ed25519_arcs] ->
+  In arcs known_oids ->
   algorithm_identifier (enc_seq (enc_oid arcs) ++ rest) = Ok (arcs, [], rest).
 Proof.
   intros arcs rest Ha. unfold algorithm_identifier.
@@ -464,7 +470,7 @@ Lemma bitstring_field_enc : forall c rest, N.of_nat (length c) <= 1000000000 ->
   bitstring_field (enc_bits c ++ rest) = Ok (c, rest).
 Proof.
   intros c rest Hc. unfold bitstring_field, enc_bits.
-  rewrite field_enc by (try lia; apply len_ok_le; cbn [length]; lia). cbn [req bind fst snd].
+  rewrite field_enc by (try lia; apply len_ok_le; cbn [length]; lia). cbn [req bind fst snd]. unfold bitstring_ok.
   change (7 <? 0) with false. change (0 <? 0) with false. rewrite Bool.andb_false_r. cbn [orb].
   change (2 ^ 0) with 1. rewrite N.mod_1_r. reflexivity.
 Qed.
@@ -501,18 +507,18 @@ Lemma in1 : forall a b c : list N, In a [a; b; c]. Proof. intros; cbn; auto. Qed
 Lemma in2 : forall a b c : list N, In b [a; b; c]. Proof. intros; cbn; auto. Qed.
 Lemma in3 : forall a b c : list N, In c [a; b; c]. Proof. intros; cbn; auto. Qed.
 
-Lemma pkix_rsa_der_enc : forall ec n e rest, int_wf n = true -> exp_wf e = true ->
-  parse_pkix_der ec (enc_spki_rsa n e ++ rest) = Ok (key_description "PKIX public key" name_rsa n).
+Lemma pkix_rsa_der_enc : forall inf n e rest, int_wf n = true -> exp_wf e = true ->
+  parse_pkix_der inf (enc_spki_rsa n e ++ rest) = Ok (key_description "PKIX public key" name_rsa n).
 Proof.
-  intros ec n e rest Hn He. pose proof (enc_pkcs1_public_length n e Hn He) as L.
+  intros inf n e rest Hn He. pose proof (enc_pkcs1_public_length n e Hn He) as L.
   unfold parse_pkix_der, pkix_fields, enc_spki_rsa. rewrite enc_null_tlv.
   pose proof (enc_seq_length (enc_oid oid_rsa_arcs ++ tlv_enc 5 false [])) as L1.
-  pose proof (enc_oid_length oid_rsa_arcs (in1 _ _ _)) as L2.
+  pose proof (enc_oid_length oid_rsa_arcs ltac:(known)) as L2.
   pose proof (tlv_length_N 3 false (0 :: enc_pkcs1_public n e) ltac:(lia)) as L3.
   pose proof (tlv_length_N 5 false [] ltac:(lia)) as L4.
   rewrite seq_enc by (apply len_ok_le; unfold enc_bits; rewrite !app_length in *; cbn [length] in *; lia).
   cbn [bind fst snd].
-  rewrite algorithm_identifier_enc by (try apply in1; cbn [length]; lia). cbn [bind fst snd].
+  rewrite algorithm_identifier_enc by (try solve [known]; cbn [length]; lia). cbn [bind fst snd].
   rewrite (app_nil_r (enc_bits _)) || rewrite <- (app_nil_r (enc_bits (enc_pkcs1_public n e))).
   rewrite bitstring_field_enc by lia. cbn [bind fst snd].
   unfold with_desc, pkix_attrs, oid_rsa_arcs. eval_oid. cbn [bind].
@@ -521,11 +527,11 @@ Proof.
   unfold pkcs1_attrs, key_description. rewrite twos_der_int_enc, zbitlen_of_N. reflexivity.
 Qed.
 
-Lemma pkix_dsa_der_enc : forall ec p q g y rest,
+Lemma pkix_dsa_der_enc : forall inf p q g y rest,
   int_wf p = true -> int_wf q = true -> int_wf g = true -> int_wf y = true ->
-  parse_pkix_der ec (enc_spki_dsa p q g y ++ rest) = Ok (key_description "PKIX public key" name_dsa p).
+  parse_pkix_der inf (enc_spki_dsa p q g y ++ rest) = Ok (key_description "PKIX public key" name_dsa p).
 Proof.
-  intros ec p q g y rest Hp Hq Hg Hy. pose proof (enc_dsa_parameters_length p q g Hp Hq Hg) as L.
+  intros inf p q g y rest Hp Hq Hg Hy. pose proof (enc_dsa_parameters_length p q g Hp Hq Hg) as L.
   pose proof (enc_int_length y Hy) as Ly.
   unfold parse_pkix_der, pkix_fields, enc_spki_dsa.
   unfold enc_dsa_parameters at 1. unfold enc_seq at 3.
@@ -534,11 +540,11 @@ Proof.
     pose proof (tlv_length_N 16 true b ltac:(lia)) as L0;
     pose proof (enc_seq_length (enc_oid oid_dsa_arcs ++ tlv_enc 16 true b)) as L1
   end.
-  pose proof (enc_oid_length oid_dsa_arcs (in2 _ _ _)) as L2.
+  pose proof (enc_oid_length oid_dsa_arcs ltac:(known)) as L2.
   pose proof (tlv_length_N 3 false (0 :: enc_int y) ltac:(lia)) as L3.
   rewrite seq_enc by (apply len_ok_le; unfold enc_bits; rewrite !app_length in *; cbn [length] in *; lia).
   cbn [bind fst snd].
-  rewrite algorithm_identifier_enc by (try apply in2; lia). cbn [bind fst snd].
+  rewrite algorithm_identifier_enc by (try solve [known]; lia). cbn [bind fst snd].
   rewrite <- (app_nil_r (enc_bits (enc_int y))).
   rewrite bitstring_field_enc by lia. cbn [bind fst snd].
   unfold with_desc, pkix_attrs, oid_dsa_arcs. eval_oid. cbn [bind].
@@ -548,40 +554,40 @@ Proof.
   unfold dsa_parameter_attrs, key_description. rewrite twos_der_int_enc, zbitlen_of_N. reflexivity.
 Qed.
 
-Lemma pkix_ed25519_der_enc : forall ec pk rest, N.of_nat (length pk) <= 1000000 ->
-  parse_pkix_der ec (enc_spki_ed25519 pk ++ rest) = Ok (Info (bs "PKIX public key") ed25519_attrs []).
+Lemma pkix_ed25519_der_enc : forall inf pk rest, N.of_nat (length pk) <= 1000000 ->
+  parse_pkix_der inf (enc_spki_ed25519 pk ++ rest) = Ok (Info (bs "PKIX public key") ed25519_attrs []).
 Proof.
-  intros ec pk rest Hk. unfold parse_pkix_der, pkix_fields, enc_spki_ed25519.
+  intros inf pk rest Hk. unfold parse_pkix_der, pkix_fields, enc_spki_ed25519.
   pose proof (enc_seq_length (enc_oid oid_ed25519_arcs)) as L1.
-  pose proof (enc_oid_length oid_ed25519_arcs (in3 _ _ _)) as L2.
+  pose proof (enc_oid_length oid_ed25519_arcs ltac:(known)) as L2.
   pose proof (tlv_length_N 3 false (0 :: pk) ltac:(lia)) as L3.
   rewrite seq_enc by (apply len_ok_le; unfold enc_bits; rewrite !app_length in *; cbn [length] in *; lia).
   cbn [bind fst snd].
-  rewrite algorithm_identifier_enc_noparams by apply in3. cbn [bind fst snd].
+  rewrite algorithm_identifier_enc_noparams by known. cbn [bind fst snd].
   rewrite <- (app_nil_r (enc_bits pk)).
   rewrite bitstring_field_enc by lia. cbn [bind fst snd].
   unfold with_desc, pkix_attrs, oid_ed25519_arcs. eval_oid. reflexivity.
 Qed.
 
-Lemma pkcs8_rsa_der_enc : forall ec n e d p q dp dq qinv rest,
+Lemma pkcs8_rsa_der_enc : forall inf n e d p q dp dq qinv rest,
   int_wf n = true -> exp_wf e = true -> int_wf d = true -> int_wf p = true -> int_wf q = true ->
   int_wf dp = true -> int_wf dq = true -> int_wf qinv = true ->
-  parse_pkcs8_der ec (enc_pkcs8_rsa n e d p q dp dq qinv ++ rest)
+  parse_pkcs8_der inf (enc_pkcs8_rsa n e d p q dp dq qinv ++ rest)
   = Ok (key_description "PKCS#8 private key" name_rsa n).
 Proof.
-  intros ec n e d p q dp dq qinv rest Hn He Hd Hp Hq Hdp Hdq Hqi.
+  intros inf n e d p q dp dq qinv rest Hn He Hd Hp Hq Hdp Hdq Hqi.
   pose proof (enc_pkcs1_private_length n e d p q dp dq qinv Hn He Hd Hp Hq Hdp Hdq Hqi) as L.
   pose proof exp_wf_0 as H0.
   unfold parse_pkcs8_der, pkcs8_fields, enc_pkcs8_rsa. rewrite enc_null_tlv.
   pose proof (enc_seq_length (enc_oid oid_rsa_arcs ++ tlv_enc 5 false [])) as L1.
-  pose proof (enc_oid_length oid_rsa_arcs (in1 _ _ _)) as L2.
+  pose proof (enc_oid_length oid_rsa_arcs ltac:(known)) as L2.
   pose proof (tlv_length_N 4 false (enc_pkcs1_private n e d p q dp dq qinv) ltac:(lia)) as L3.
   pose proof (tlv_length_N 5 false [] ltac:(lia)) as L4.
   pose proof (enc_int_length 0 (exp_wf_int_wf 0 H0)) as L5.
   rewrite seq_enc by (apply len_ok_le; unfold enc_octets; rewrite !app_length in *; cbn [length] in *; lia).
   cbn [bind fst snd].
   rewrite int_field_enc by assumption. cbn [bind fst snd].
-  rewrite algorithm_identifier_enc by (try apply in1; cbn [length]; lia). cbn [bind fst snd].
+  rewrite algorithm_identifier_enc by (try solve [known]; cbn [length]; lia). cbn [bind fst snd].
   rewrite <- (app_nil_r (enc_octets _)).
   rewrite octets_field_enc by lia. cbn [bind fst snd].
   unfold with_desc, pkcs8_attrs, oid_rsa_arcs. eval_oid. cbn [bind].
@@ -590,11 +596,11 @@ Proof.
   unfold pkcs1_attrs, key_description. rewrite twos_der_int_enc, zbitlen_of_N. reflexivity.
 Qed.
 
-Lemma pkcs8_dsa_der_enc : forall ec p q g x rest,
+Lemma pkcs8_dsa_der_enc : forall inf p q g x rest,
   int_wf p = true -> int_wf q = true -> int_wf g = true -> int_wf x = true ->
-  parse_pkcs8_der ec (enc_pkcs8_dsa p q g x ++ rest) = Ok (key_description "PKCS#8 private key" name_dsa p).
+  parse_pkcs8_der inf (enc_pkcs8_dsa p q g x ++ rest) = Ok (key_description "PKCS#8 private key" name_dsa p).
 Proof.
-  intros ec p q g x rest Hp Hq Hg Hx. pose proof (enc_dsa_parameters_length p q g Hp Hq Hg) as L.
+  intros inf p q g x rest Hp Hq Hg Hx. pose proof (enc_dsa_parameters_length p q g Hp Hq Hg) as L.
   pose proof (enc_int_length x Hx) as Lx. pose proof exp_wf_0 as H0.
   pose proof (enc_int_length 0 (exp_wf_int_wf 0 H0)) as L5.
   unfold parse_pkcs8_der, pkcs8_fields, enc_pkcs8_dsa.
@@ -604,12 +610,12 @@ Proof.
     pose proof (tlv_length_N 16 true b ltac:(lia)) as L0;
     pose proof (enc_seq_length (enc_oid oid_dsa_arcs ++ tlv_enc 16 true b)) as L1
   end.
-  pose proof (enc_oid_length oid_dsa_arcs (in2 _ _ _)) as L2.
+  pose proof (enc_oid_length oid_dsa_arcs ltac:(known)) as L2.
   pose proof (tlv_length_N 4 false (enc_int x) ltac:(lia)) as L3.
   rewrite seq_enc by (apply len_ok_le; unfold enc_octets; rewrite !app_length in *; cbn [length] in *; lia).
   cbn [bind fst snd].
   rewrite int_field_enc by assumption. cbn [bind fst snd].
-  rewrite algorithm_identifier_enc by (try apply in2; lia). cbn [bind fst snd].
+  rewrite algorithm_identifier_enc by (try solve [known]; lia). cbn [bind fst snd].
   rewrite <- (app_nil_r (enc_octets (enc_int x))).
   rewrite octets_field_enc by lia. cbn [bind fst snd].
   unfold with_desc, pkcs8_attrs, oid_dsa_arcs. eval_oid. cbn [bind].
@@ -619,20 +625,20 @@ Proof.
   unfold dsa_parameter_attrs, key_description. rewrite twos_der_int_enc, zbitlen_of_N. reflexivity.
 Qed.
 
-Lemma pkcs8_ed25519_der_enc : forall ec seed rest, N.of_nat (length seed) <= 1000000 ->
-  parse_pkcs8_der ec (enc_pkcs8_ed25519 seed ++ rest) = Ok (Info (bs "PKCS#8 private key") ed25519_attrs []).
+Lemma pkcs8_ed25519_der_enc : forall inf seed rest, N.of_nat (length seed) <= 1000000 ->
+  parse_pkcs8_der inf (enc_pkcs8_ed25519 seed ++ rest) = Ok (Info (bs "PKCS#8 private key") ed25519_attrs []).
 Proof.
-  intros ec seed rest Hk. pose proof exp_wf_0 as H0.
+  intros inf seed rest Hk. pose proof exp_wf_0 as H0.
   pose proof (enc_int_length 0 (exp_wf_int_wf 0 H0)) as L5.
   unfold parse_pkcs8_der, pkcs8_fields, enc_pkcs8_ed25519.
   pose proof (enc_seq_length (enc_oid oid_ed25519_arcs)) as L1.
-  pose proof (enc_oid_length oid_ed25519_arcs (in3 _ _ _)) as L2.
+  pose proof (enc_oid_length oid_ed25519_arcs ltac:(known)) as L2.
   pose proof (tlv_length_N 4 false seed ltac:(lia)) as L3.
   pose proof (tlv_length_N 4 false (tlv_enc 4 false seed) ltac:(lia)) as L4.
   rewrite seq_enc by (apply len_ok_le; unfold enc_octets; rewrite !app_length in *; cbn [length] in *; lia).
   cbn [bind fst snd].
   rewrite int_field_enc by assumption. cbn [bind fst snd].
-  rewrite algorithm_identifier_enc_noparams by apply in3. cbn [bind fst snd].
+  rewrite algorithm_identifier_enc_noparams by known. cbn [bind fst snd].
   rewrite <- (app_nil_r (enc_octets (enc_octets seed))).
   rewrite octets_field_enc by (unfold enc_octets; lia). cbn [bind fst snd].
   unfold with_desc, pkcs8_attrs, oid_ed25519_arcs. eval_oid. reflexivity.
@@ -651,4 +657,183 @@ Lemma spki_pkcs8_der_examples :
      = Ok (Info (bs "PKCS#8 private key") [(bs "Algorithm", bs "DSA"); (bs "Size", bs "1023 bits")] [])
   /\ parse_pkcs8_der (Err "oracle") (enc_pkcs8_ed25519 (repeat 9 32))
      = Ok (Info (bs "PKCS#8 private key") [(bs "Algorithm", bs "EdDSA"); (bs "Curve", bs "Ed25519")] []).
+Proof. vm_compute. repeat (match goal with |- _ /\ _ => split end); reflexivity. Qed.
+
+(* ------------------------------------------------------------------ *)
+(* EC keys over a named curve                                          *)
+(* ------------------------------------------------------------------ *)
+Lemma ctx_enc_nonempty : forall t c rest, ctx_enc t c ++ rest <> [].
+Proof.
+  intros t c rest E. unfold ctx_enc in E. pose proof (enc_hdr_length 2 true t (N.of_nat (length c))) as L.
+  apply (f_equal (@length N)) in E. rewrite !app_length in E. cbn [length] in E. lia.
+Qed.
+
+Lemma tlv_enc_nonempty : forall t comp c rest, tlv_enc t comp c ++ rest <> [].
+Proof.
+  intros t comp c rest E. unfold tlv_enc in E. pose proof (enc_hdr_length 0 comp t (N.of_nat (length c))) as L.
+  apply (f_equal (@length N)) in E. rewrite !app_length in E. cbn [length] in E. lia.
+Qed.
+
+Lemma is_nil_false : forall (l : bytes), l <> [] -> is_nil l = false.
+Proof. intros [|x l] H; [contradiction|reflexivity]. Qed.
+
+(* the wrapper [tagno] around one element of the expected universal type: the content of the inner element *)
+Lemma explicit_field_enc : forall tagno univ comp c rest,
+  tagno < 2147483648 -> univ < 31 -> N.of_nat (length c) <= 1000000000 ->
+  explicit_field tagno univ comp (ctx_enc tagno (tlv_enc univ comp c) ++ rest) = Ok (Some c, rest).
+Proof.
+  intros tagno univ comp c rest Ht Hu Hc. unfold explicit_field.
+  destruct (ctx_enc tagno (tlv_enc univ comp c) ++ rest) eqn:E; [exfalso; eapply ctx_enc_nonempty; exact E|].
+  rewrite <- E. unfold ctx_enc. rewrite <- app_assoc.
+  pose proof (tlv_enc_length univ comp c Hu) as L.
+  rewrite parse_tl_enc by lia. cbn [h_class h_tag h_comp h_len].
+  rewrite (is_nil_false _ (tlv_enc_nonempty univ comp c rest)).
+  rewrite !N.eqb_refl, Bool.orb_true_r. cbn [andb].
+  replace (0 <? N.of_nat (length (tlv_enc univ comp c))) with true
+    by (symmetry; apply N.ltb_lt; unfold tlv_enc; rewrite app_length;
+        pose proof (enc_hdr_length 0 comp univ (N.of_nat (length c))); lia).
+  unfold tlv_enc at 1. rewrite <- app_assoc. rewrite parse_tl_enc by lia.
+  cbn [h_class h_tag h_comp h_len]. rewrite !N.eqb_refl, Bool.eqb_reflx. cbn [andb].
+  rewrite split_at_N_app. reflexivity.
+Qed.
+
+(* a wrapper with another tag number leaves the field at its default and consumes nothing *)
+Lemma explicit_field_skip : forall tagno t' univ comp c rest,
+  tagno <> t' -> t' < 2147483648 -> N.of_nat (length c) <= 1000000000 -> c ++ rest <> [] ->
+  explicit_field tagno univ comp (ctx_enc t' c ++ rest) = Ok (None, ctx_enc t' c ++ rest).
+Proof.
+  intros tagno t' univ comp c rest Hne Ht Hc Hn. unfold explicit_field.
+  destruct (ctx_enc t' c ++ rest) eqn:E; [exfalso; eapply ctx_enc_nonempty; exact E|].
+  rewrite <- E. unfold ctx_enc at 1. rewrite <- app_assoc.
+  rewrite parse_tl_enc by lia. cbn [h_class h_tag h_comp h_len].
+  rewrite (is_nil_false _ Hn).
+  replace (t' =? tagno) with false by (symmetry; apply N.eqb_neq; congruence).
+  rewrite Bool.andb_false_r. reflexivity.
+Qed.
+
+Lemma enc_oid_tlv : forall arcs, In arcs known_oids -> exists c, enc_oid arcs = tlv_enc 6 false c
+  /\ N.of_nat (length c) <= 20 /\ oid_ok c = Ok arcs.
+Proof.
+  intros arcs H. unfold known_oids in H. cbn [In] in H.
+  decompose [or] H; try contradiction; subst arcs;
+    unfold enc_oid, oid_rsa_arcs, oid_dsa_arcs, oid_ed25519_arcs, oid_ec_arcs, curve_oid;
+    (eexists; split; [reflexivity|split; vm_compute; [discriminate|reflexivity]]).
+Qed.
+
+Lemma curve_known : forall c, In (curve_oid c) known_oids.
+Proof. intros []; known. Qed.
+
+Lemma curve_oid_cons : forall c, exists a r, curve_oid c = a :: r.
+Proof. intros []; cbn; eauto. Qed.
+
+Definition ec_description (label : string) (c : curve) : info :=
+  Info (bs label) [(bs "Algorithm", name_ecdsa); (bs "Curve", curve_shown c)] [].
+Arguments ec_description label%string c.
+
+Lemma ec_parameters_named_der_enc : forall inf c rest,
+  parse_ec_parameters_der inf (enc_oid (curve_oid c) ++ rest)
+  = Ok (Info (bs "EC parameters") [(bs "Curve", curve_shown c)] []).
+Proof.
+  intros inf c rest. unfold parse_ec_parameters_der, ec_of_der.
+  rewrite oid_field_enc by apply curve_known.
+  unfold parse_ec_parameters, with_desc, ec_parameters_attrs. cbn [bind].
+  unfold named_curve_attrs. rewrite curve_from_oid_shown. reflexivity.
+Qed.
+
+Lemma sec1_named_der_enc : forall inf c d pub rest,
+  N.of_nat (length d) <= 1000000 -> N.of_nat (length pub) <= 1000000 ->
+  parse_sec1_der inf (enc_sec1_named (curve_oid c) d pub ++ rest) = Ok (ec_description "EC private key" c).
+Proof.
+  intros inf c d pub rest Hd Hp.
+  destruct (enc_oid_tlv (curve_oid c) (curve_known c)) as (oc & Eo & Lo & Oo).
+  assert (H1 : exp_wf 1 = true) by reflexivity.
+  pose proof (enc_int_length 1 (exp_wf_int_wf 1 H1)) as L1.
+  unfold parse_sec1_der, sec1_fields, enc_sec1_named. rewrite Eo. unfold enc_bits, enc_octets.
+  pose proof (tlv_length_N 4 false d ltac:(lia)) as L2.
+  pose proof (tlv_length_N 6 false oc ltac:(lia)) as L3.
+  pose proof (tlv_length_N 3 false (0 :: pub) ltac:(lia)) as L4. cbn [length] in L4.
+  assert (L5 : N.of_nat (length (ctx_enc 0 (tlv_enc 6 false oc))) <= N.of_nat (length (tlv_enc 6 false oc)) + 6).
+  { unfold ctx_enc. rewrite app_length. unfold enc_hdr, enc_tag. change (0 <? 31) with true. cbn iota.
+    rewrite app_length. cbn [length]. unfold enc_len.
+    repeat match goal with |- context [if ?b then _ else _] => destruct b end; cbn [length]; lia. }
+  assert (L6 : N.of_nat (length (ctx_enc 1 (tlv_enc 3 false (0 :: pub)))) <= N.of_nat (length (tlv_enc 3 false (0 :: pub))) + 6).
+  { unfold ctx_enc. rewrite app_length. unfold enc_hdr, enc_tag. change (1 <? 31) with true. cbn iota.
+    rewrite app_length. cbn [length]. unfold enc_len.
+    repeat match goal with |- context [if ?b then _ else _] => destruct b end; cbn [length]; lia. }
+  rewrite seq_enc by (apply len_ok_le; rewrite !app_length; lia). cbn [bind fst snd].
+  rewrite int_field_enc by assumption. cbn [bind fst snd].
+  unfold octets. rewrite field_enc by (try lia; apply len_ok_le; lia). cbn [req bind fst snd].
+  rewrite explicit_field_enc by lia. cbn [bind fst snd]. rewrite Oo. cbn [bind fst snd].
+  rewrite <- (app_nil_r (ctx_enc 1 _)).
+  rewrite explicit_field_skip; [|lia|lia|cbn [length]; lia|apply tlv_enc_nonempty]. cbn [bind fst snd].
+  rewrite explicit_field_enc by (cbn [length]; lia). cbn [bind fst snd].
+  unfold bitstring_ok. change (7 <? 0) with false. change (0 <? 0) with false. rewrite Bool.andb_false_r. cbn [orb].
+  change (2 ^ 0) with 1. rewrite N.mod_1_r. cbn [N.eqb negb bind].
+  unfold with_desc, ec_private_attrs. destruct (curve_oid_cons c) as (a & r & Ec). rewrite Ec at 1. cbn [bind].
+  unfold named_curve_attrs, ec_description. rewrite curve_from_oid_shown. reflexivity.
+Qed.
+
+Lemma ec_of_der_named : forall inf c, ec_of_der inf (enc_oid (curve_oid c)) = Ok (EcNamed (curve_oid c)).
+Proof.
+  intros. unfold ec_of_der. rewrite <- (app_nil_r (enc_oid (curve_oid c))).
+  rewrite oid_field_enc by apply curve_known. reflexivity.
+Qed.
+
+Lemma pkix_ec_named_der_enc : forall inf c point rest, N.of_nat (length point) <= 1000000 ->
+  parse_pkix_der inf (enc_spki_ec_named (curve_oid c) point ++ rest) = Ok (ec_description "PKIX public key" c).
+Proof.
+  intros inf c point rest Hp.
+  destruct (enc_oid_tlv (curve_oid c) (curve_known c)) as (oc & Eo & Lo & Oo).
+  unfold parse_pkix_der, pkix_fields, enc_spki_ec_named.
+  pose proof (ec_of_der_named inf c) as Hec. rewrite Eo in *.
+  pose proof (enc_seq_length (enc_oid oid_ec_arcs ++ tlv_enc 6 false oc)) as L1.
+  pose proof (enc_oid_length oid_ec_arcs ltac:(known)) as L2.
+  pose proof (tlv_length_N 3 false (0 :: point) ltac:(lia)) as L3.
+  pose proof (tlv_length_N 6 false oc ltac:(lia)) as L4.
+  rewrite seq_enc by (apply len_ok_le; unfold enc_bits; rewrite !app_length in *; cbn [length] in *; lia).
+  cbn [bind fst snd].
+  rewrite algorithm_identifier_enc by (try solve [known]; lia). cbn [bind fst snd].
+  rewrite <- (app_nil_r (enc_bits point)).
+  rewrite bitstring_field_enc by lia. cbn [bind fst snd].
+  unfold with_desc, pkix_attrs, oid_ec_arcs. eval_oid. rewrite Hec.
+  unfold ec_parameters_attrs, attrs_or_none, named_curve_attrs. cbn [bind].
+  unfold ec_description. rewrite curve_from_oid_shown. reflexivity.
+Qed.
+
+Lemma pkcs8_ec_named_der_enc : forall inf c inner rest, N.of_nat (length inner) <= 1000000 ->
+  parse_pkcs8_der inf (enc_pkcs8_ec_named (curve_oid c) inner ++ rest) = Ok (ec_description "PKCS#8 private key" c).
+Proof.
+  intros inf c inner rest Hp.
+  destruct (enc_oid_tlv (curve_oid c) (curve_known c)) as (oc & Eo & Lo & Oo).
+  pose proof exp_wf_0 as H0. pose proof (enc_int_length 0 (exp_wf_int_wf 0 H0)) as L5.
+  unfold parse_pkcs8_der, pkcs8_fields, enc_pkcs8_ec_named.
+  pose proof (ec_of_der_named inf c) as Hec. rewrite Eo in *.
+  pose proof (enc_seq_length (enc_oid oid_ec_arcs ++ tlv_enc 6 false oc)) as L1.
+  pose proof (enc_oid_length oid_ec_arcs ltac:(known)) as L2.
+  pose proof (tlv_length_N 4 false inner ltac:(lia)) as L3.
+  pose proof (tlv_length_N 6 false oc ltac:(lia)) as L4.
+  rewrite seq_enc by (apply len_ok_le; unfold enc_octets; rewrite !app_length in *; cbn [length] in *; lia).
+  cbn [bind fst snd].
+  rewrite int_field_enc by assumption. cbn [bind fst snd].
+  rewrite algorithm_identifier_enc by (try solve [known]; lia). cbn [bind fst snd].
+  rewrite <- (app_nil_r (enc_octets inner)).
+  rewrite octets_field_enc by lia. cbn [bind fst snd].
+  unfold with_desc, pkcs8_attrs, oid_ec_arcs. eval_oid. rewrite Hec.
+  unfold ec_parameters_attrs, attrs_or_none, named_curve_attrs. cbn [bind].
+  unfold ec_description. rewrite curve_from_oid_shown. reflexivity.
+Qed.
+
+(* the explicit-tag reader: refused / accepted shapes of the optional part of an ECPrivateKey, on a concrete key *)
+Lemma ec_der_examples :
+  let d := repeat 7 32 in let pub := 4 :: repeat 9 64 in let oid := enc_oid (curve_oid P256) in
+  let shown := Ok (Info (bs "EC private key") [(bs "Algorithm", bs "ECDSA"); (bs "Curve", bs "P-256 (secp256r1, prime256v1)")] []) in
+  parse_sec1_der (Err "no answer") (enc_sec1_named (curve_oid P256) d pub) = shown
+  /\ parse_ec_parameters_der (Err "no answer") oid = Ok (Info (bs "EC parameters") [(bs "Curve", bs "P-256 (secp256r1, prime256v1)")] [])
+  /\ parse_pkix_der (Err "no answer") (enc_spki_ec_named (curve_oid P384) pub)
+     = Ok (Info (bs "PKIX public key") [(bs "Algorithm", bs "ECDSA"); (bs "Curve", bs "P-384 (secp384r1)")] [])
+  (* the wrapper's own length is not compared with the element inside (encoding/asn1) *)
+  /\ parse_sec1_der (Err "no answer") (enc_seq (enc_int 1 ++ enc_octets d ++ [160; 2] ++ oid)) = shown
+  (* an element with nothing after its header at the end of the SEQUENCE: "explicit tag has no child" *)
+  /\ parse_sec1_der (Err "no answer") (enc_seq (enc_int 1 ++ enc_octets d ++ ctx_enc 0 oid ++ [5; 0])) = Err "asn1"
+  /\ parse_sec1_der (Err "no answer") (enc_seq (enc_int 1 ++ enc_octets d ++ [160; 0])) = Err "asn1".
 Proof. vm_compute. repeat (match goal with |- _ /\ _ => split end); reflexivity. Qed.
